@@ -176,6 +176,115 @@ def op4_bounded(seed, quick):
         shutil.rmtree(tmp, ignore_errors=True)
 
 
+def op4_subsets_bounded(seed, quick):
+    """files that MIX physical variants per matrix (layout, precision, wide/ordinary ASCII header) and every name subset: reading a named subset == filtering a full read,
+    the matrices after a skipped one are decoded exactly (the skipper leaves the reader at the next header)"""
+    sys.path.insert(0, report.REPO)
+    from pyyeti.nastran import op4
+    import scipy.sparse as sps
+    import itertools
+    rng = np.random.RandomState(seed + 77)
+    tmp = tempfile.mkdtemp(prefix="verif_c11_")
+    ev = 0
+    dense_of = lambda G: G.toarray() if sps.issparse(G) else np.asarray(G)
+    try:
+        files = []
+        for rep in range(2 if quick else 6):
+            for kind in ("binary<", "binary>", "binary<64", "asciiE", "asciiD", "ascii-wide"):
+                nmat = 4
+                if kind.startswith("binary"):
+                    enc = nasenc.Op4Binary(kind[6], kind.endswith("64"))
+                else:
+                    enc = nasenc.Op4Ascii(*((23, 16, 3, "E") if kind != "asciiD" else (26, 17, 3, "D")))
+                mats, big = [], False
+                for k in range(nmat):
+                    layout = ("dense", "bigmat", "nonbigmat")[rng.randint(3)]
+                    mtype = (2, 4, 1, 3)[rng.randint(4)] if kind.startswith("binary") else (2, 4)[rng.randint(2)]
+                    M = _cast(_mat(rng, rng.randint(1, 9), rng.randint(1, 5), mtype > 2, 0.6), mtype)
+                    kw = {}
+                    if kind == "ascii-wide":
+                        # wide headers on some matrices only, ordinary headers after them
+                        w_ = (k in (0, 2)) if rep % 2 == 0 else (k == 1)
+                        if w_:
+                            kw = dict(wide=True)
+                            if k == 0 and rep % 2 == 0 and layout != "nonbigmat":
+                                kw["nrow"] = 10_000_000 + M.shape[0]      # a dimension that really needs the wide header
+                                M = (M, kw["nrow"])
+                                big = True
+                    m_ = M[0] if isinstance(M, tuple) else M
+                    mode = "single" if layout == "dense" else ("runs", "split", "merge")[rng.randint(3)]
+                    enc.matrix("S%d" % k, [list(m_[:, c]) for c in range(m_.shape[1])], mtype, 2, layout, lambda col, m=mode: nasenc.split_strings(col, rng, m), **kw)
+                    mats.append(("s%d" % k, M, mtype))
+                fn = os.path.join(tmp, "s%d_%s.op4" % (rep, kind.replace("<", "le").replace(">", "be")))
+                if kind.startswith("binary"):
+                    open(fn, "wb").write(enc.bytes())
+                else:
+                    open(fn, "w").write(enc.text())
+                files.append((kind, fn, mats, big))
+        for kind, fn, mats, big in files:
+            allnames = [m[0] for m in mats]
+            def agrees(G, M):
+                A = G if sps.issparse(G) else np.asarray(G)
+                if isinstance(M, tuple):                          # announced rows beyond the encoded ones are zero
+                    m_, nr = M
+                    if A.shape != (nr, m_.shape[1]):
+                        return False
+                    A = sps.coo_matrix(A).tocsr()
+                    top = A[:m_.shape[0]].toarray()
+                    return A[m_.shape[0]:].count_nonzero() == 0 and (np.array_equal(top, m_) if kind.startswith("binary") else np.allclose(top, m_, rtol=1e-14, atol=0))
+                A = dense_of(A)
+                return A.shape == M.shape and (np.array_equal(A, M) if kind.startswith("binary") else np.allclose(A, M, rtol=1e-14, atol=0))
+            for rm in ((True,) if big else (False, True, None)):
+                try:
+                    with warnings.catch_warnings():
+                        warnings.simplefilter("ignore")
+                        full = op4.load(fn, into="list", sparse=rm)
+                        listing = op4.dir(fn, verbose=False)
+                except Exception as ex:
+                    tb = traceback.extract_tb(ex.__traceback__)
+                    return ev, dict(what="op4 reader raises on a file that mixes per-matrix variants", kind=kind, read_mode=str(rm), exception="%r at %s:%s" % (ex, tb[-1].filename, tb[-1].lineno),
+                                    headers=[l for l in open(fn, errors="replace").read().split("\n") if "1P," in l][:6] if kind.startswith("ascii") else None)
+                ev += 1
+                prob = []
+                if list(full[0]) != allnames or list(listing[0]) != allnames:
+                    prob.append("names %s / dir %s" % (full[0], listing[0]))
+                else:
+                    for (nm, M, mt), G, t, shp in zip(mats, full[1], full[3], listing[1]):
+                        if not agrees(G, M):
+                            prob.append("matrix %s decoded wrong" % nm)
+                        if t != mt or tuple(shp) != ((M[1], M[0].shape[1]) if isinstance(M, tuple) else M.shape):
+                            prob.append("type/size of %s: %s %s" % (nm, t, tuple(shp)))
+                if prob:
+                    return ev, dict(what="op4 reader does not decode an independently encoded file that mixes per-matrix variants", kind=kind, read_mode=str(rm), problems=prob[:4])
+                for r_ in range(1, len(allnames) + 1):
+                    for sub in itertools.combinations(allnames, r_):
+                        for order in ((list(sub), list(sub)[::-1]) if len(sub) == 2 else (list(sub),)):
+                            ev += 1
+                            try:
+                                with warnings.catch_warnings():
+                                    warnings.simplefilter("ignore")
+                                    got = op4.load(fn, namelist=order, into="list", sparse=rm)
+                                    gd = op4.load(fn, namelist=order, into="dct", sparse=rm) if len(sub) == 2 else None
+                            except Exception as ex:
+                                tb = traceback.extract_tb(ex.__traceback__)
+                                return ev, dict(what="reading a named subset raises although the full read of the same file succeeds", kind=kind, subset=order, read_mode=str(rm),
+                                                exception="%r at %s:%s" % (ex, tb[-1].filename, tb[-1].lineno))
+                            want = [i for i, n_ in enumerate(allnames) if n_ in sub]
+                            ok = list(got[0]) == [allnames[i] for i in want] and list(got[2]) == [full[2][i] for i in want] and list(got[3]) == [full[3][i] for i in want]
+                            if ok:
+                                for i, G in zip(want, got[1]):
+                                    F = full[1][i]
+                                    same = (abs(sps.coo_matrix(G) - sps.coo_matrix(F)).count_nonzero() == 0 and G.shape == F.shape) if big else np.array_equal(dense_of(G), dense_of(F))
+                                    ok = ok and same and (sps.issparse(G) == sps.issparse(F))
+                            if ok and gd is not None:
+                                ok = sorted(gd.keys()) == sorted(sub) and all(np.array_equal(dense_of(gd[allnames[i]][0]), dense_of(full[1][i])) for i in want)
+                            if not ok:
+                                return ev, dict(what="reading a named subset differs from filtering a full read", kind=kind, subset=order, read_mode=str(rm), got_names=list(got[0]))
+        return ev, None
+    finally:
+        shutil.rmtree(tmp, ignore_errors=True)
+
+
 def op2_bounded(seed, quick):
     sys.path.insert(0, report.REPO)
     from pyyeti.nastran import op2
@@ -328,12 +437,16 @@ def run(tier, seed):
     run.bounded.append(dict(name="independent OUTPUT4 encoder -> real op4.load/dir: binary {byte order} x {32/64-bit} x {dense, bigmat, nonbigmat} x {types 1-4} x string partitions (maximal runs, split, "
                                  "merged with explicit zeros) x read modes, runs >= 3000 values; ASCII E/D exponents, widths 16/23/24/26, 3 or 5 per line; named subset; dir() listing",
                             evaluations=ev1, failures=0 if f1 is None else 1, label="bounded (never counted as proved)"))
+    ev3, f3 = op4_subsets_bounded(seed, tier == "quick")
+    run.bounded.append(dict(name="independent OUTPUT4 encoder, files mixing per-matrix variants (layout, precision, string partition, wide |I16 / ordinary ASCII headers incl. a 10,000,00x-row matrix): "
+                                 "every subset of the names (both orders for pairs; list and dict interfaces) x read modes == filtering the full read; dir() listing",
+                            evaluations=ev3, failures=0 if f3 is None else 1, label="bounded (never counted as proved)"))
     ev2, f2 = op2_bounded(seed, tier == "quick")
     run.bounded.append(dict(name="independent OUTPUT2 encoder -> real op2.OP2: {byte order} x {32/64-bit keys} x {with/without file header} x string partitions; matrices of types 1-4 incl. >= 3000-value "
                                  "strings, repeated names, multi-part table records (3300-word record); directory byte ranges vs encoder offsets, rdop2mats all/subset, record reads, skip positions",
                             evaluations=ev2, failures=0 if f2 is None else 1, label="bounded (never counted as proved)"))
     failed = [v for v in run.verdicts if v.status == "failed"]
-    cf = f1 or f2
+    cf = f1 or f3 or f2
     if failed:
         v = failed[0]
         run.violation(v.name, "; ".join(x.name[:100] for x in failed[:5]), dict(failed=[x.as_dict() for x in failed[:8]], verifier_output=v.detail, concrete=cf), concrete=cf is not None)
